@@ -22,11 +22,13 @@ def main():
     ops = apibfs.ops_alphabet()
     ck.cov['operations'] = len(ops)
     depth = 3 if quick else 5
-    apibfs.run_bfs(ck, apibfs.A1, 0, apibfs.STARTS, ops, depth)
-    # the same store under a case-insensitive context: names and titles fold
     from model import CFGF
     nops = apibfs.ops_alphabet(nocase=True)
+    # cheapest and most diverse first (a deadline only costs depth): both contexts to depth 2, then the deeper levels
+    apibfs.run_bfs(ck, apibfs.A1, 0, apibfs.STARTS, ops, 2, label='api-depth2')
+    # the same store under a case-insensitive context: names and titles fold
     apibfs.run_bfs(ck, apibfs.A1, CFGF['NOCASE'], [b'', b'MT a { X = 3 } mt b { } m { }'], nops, 2 if quick else 3, label='api-nocase')
+    apibfs.run_bfs(ck, apibfs.A1, 0, apibfs.STARTS, ops, depth)
     ck.assumptions = ['state deduplication on the implementation\'s full dump (values, MODIFIED, RESET, annotations): the future of a context '
                       'depends on nothing else', 'lists are capped at 4 values and section options at 3 instances',
                       'UNSPEC: MODIFIED after cfg_setlist(..,0) and on section options; cfg_addtsec / removal on non-multi sections']
